@@ -259,6 +259,7 @@ def dispatch_model(ctx, repo, pid):
         raise AnalysisError("anchor vanished: SphereGridNDim.gen_grid")
     ctx.analysed(gg)
     chosen = {}
+    gen_args = {}
     for dims in (3, 4):
         for n in (1, 2, 3, 4, 5, 40):
             interp = Interp(repo, Hooks())
@@ -278,6 +279,12 @@ def dispatch_model(ctx, repo, pid):
             sv = o.attrs.get("spherical_voronoi")
             chosen[(dims, n)] = sv.cls.name if isinstance(sv, ObjV) and sv.cls is not None else vstr(sv)[:40]
             ctx.instance("DISPATCH")
+            # the generators handed to the cell model are the grid rows themselves, in grid order (cell k <-> grid row k)
+            if isinstance(sv, ObjV) and sv.cls is not None and sv.cls.name in ("RotobjVoronoi", "HalfRotobjVoronoi") and \
+                    isinstance(sv.origin, Term) and sv.origin.op == "ctor":
+                a0 = sv.origin.args[0] if sv.origin.args else sv.origin.kw.get("my_array")
+                if a0 is not None and vkey(a0) != vkey(o.attrs["grid"]):
+                    gen_args.setdefault(vstr(a0)[:160], []).append((dims, n))
     exp = {}
     for dims in (3, 4):
         for n in (1, 2, 3, 4, 5, 40):
@@ -286,6 +293,17 @@ def dispatch_model(ctx, repo, pid):
     ctx.check(not bad, "DISPATCH", f"{pid}.dispatch", "cell model per grid: exact (3D) / antipode-folded (4D) Voronoi model for N>=4, "
               "equal-share estimate for N<4", gg.where, "if self.dimensions == 3 and self.N >= 4: ...",
               witness="; ".join(f"dims={k[0]}, N={k[1]}: {v[0]} (expected {v[1]})" for k, v in bad.items()))
+    ctx.instance("ORD")
+    if not gen_args:
+        ctx.ok("ORD", f"{pid}.dispatch.generators", "the cell model is built on the grid array itself: cell k belongs to grid row k", gg.where)
+    else:
+        for txt, where_ in gen_args.items():
+            if any(w_ in txt for w_ in ("unique(", "sort(", "sorted(", "flip", "shuffle", "permutation")):
+                ctx.violate("ORD", f"{pid}.dispatch.generators", "the cell model is built on a RE-ORDERED copy of the grid (np.unique / sort return "
+                            "rows in lexicographic order): volumes, borders and neighbours come back in that order and no longer belong to "
+                            "the rows of get_grid_as_array()", gg.where, txt, witness=f"contexts (dims, N): {where_[:4]}")
+            else:
+                ctx.inconclusive("ORD", f"{pid}.dispatch.generators", "the array handed to the cell model is not the grid array", gg.where, witness=txt)
     return chosen
 
 
@@ -320,8 +338,21 @@ def volumes_exact_3d(ctx, repo, pid):
     ctx.check(ok3, "DISPATCH", f"{pid}.areas.exact", "for direction grids (3D) the default cell areas come from "
               "SphericalVoronoi.calculate_areas (exact areas of the spherical polygons)", fi.where, witness=vstr(r3)[:200])
     r4 = out[4]
-    ctx.check(isinstance(r4, Term) and r4.op == "hull_estimate", "DISPATCH", f"{pid}.areas.4d", "for rotation grids (4D) the convex-hull "
-              "estimate is used", fi.where, witness=vstr(r4)[:200])
+    if isinstance(r4, Term) and r4.op == "hull_estimate":
+        ctx.ok("DISPATCH", f"{pid}.areas.4d", "for rotation grids (4D) the convex-hull estimate is used, unmodified", fi.where)
+    else:
+        txt4 = vstr(r4)
+        rev = "slice(None, None, -1)" in txt4 or "flip" in txt4 or "::-1" in txt4
+        if "hull_estimate" in txt4 and rev:
+            ctx.violate("DISPATCH", f"{pid}.areas.4d", "the 4D volume estimates are combined with their REVERSED sequence: in the double cover "
+                        "(q_0..q_{N-1}, -q_0..-q_{N-1}) the antipode of row i is row i+N, not row 2N-1-i, so every cell is mixed with the "
+                        "estimate of an unrelated cell", fi.where, "volumes[::-1]", witness=txt4[:200])
+        elif "hull_estimate" not in txt4 and not contains_top(r4):
+            ctx.violate("DISPATCH", f"{pid}.areas.4d", "for rotation grids (4D) the convex-hull estimate is not what is returned", fi.where,
+                        witness=txt4[:200])
+        else:
+            ctx.inconclusive("DISPATCH", f"{pid}.areas.4d", "the 4D volume estimate is post-processed in a way that is not recognised", fi.where,
+                             witness=contains_top(r4) or txt4[:200])
 
 
 def quaternion_distance_range(ctx, repo, pid):
